@@ -30,6 +30,14 @@ func genReadsCase(r *rand.Rand, cfg Cfg) Case {
 			}
 		}
 		k := pick(r, uni)
+		if r.Intn(5) == 0 {
+			mv := ""
+			for j := 0; j < 1+r.Intn(8); j++ {
+				mv += pick(r, []string{"f", "f", "b"})
+			}
+			ops = append(ops, fmt.Sprintf("cwalk 0 %d %s", k, mv))
+			continue
+		}
 		switch r.Intn(3) {
 		case 0:
 			ops = append(ops, fmt.Sprintf("getl 0 %d", k))
@@ -52,7 +60,7 @@ func genReadsCase(r *rand.Rand, cfg Cfg) Case {
 }
 
 func famReads(f *FamCtx) {
-	f.Report.Rule = "persisted trees on a recording store without cache; LoadMast / Clone / Get / Insert (new, update, equal) / Delete (hit, miss, wrong value) on keys present and absent of every layer, from fully persisted and from partly modified trees; the multiset of names passed to Persist.Load by each call is compared with the model's load trace and with C16's bounds; non-trivial = reached height >= 1 and changed height"
+	f.Report.Rule = "persisted trees on a recording store without cache; LoadMast / Clone / Get / Insert (new, update, equal) / Delete (hit, miss, wrong value) on keys present and absent of every layer, from fully persisted and from partly modified trees; cursor walks (Cursor, Ceil, Forward, Backward) with at most one read per level and call; the multiset of names passed to Persist.Load by each call is compared with the model's load trace and with C16's bounds; non-trivial = reached height >= 1 and changed height"
 	f.Gen = func() Case { return genReadsCase(f.Rand, RandCfg(f.Rand)) }
 	n := f.N(250, 10000)
 	for i := 0; i < n; i++ {
